@@ -16,10 +16,9 @@ CFG = {
                           'Dlis.Obligations.eflrTypes_eq']),
     'C18': dict(theorems=['Dlis.C18.logical_files_isolated', 'Dlis.C18.shared_set_rejected',
                           'Dlis.C18.frames_independent', 'Dlis.run_invariants']),
-    'C20': dict(theorems=['Dlis.C20.rejected_leaves_objects', 'Dlis.C20.later_copy_numbers_unaffected',
-                          'Dlis.C20.records_unchanged_item', 'Dlis.C20.records_unchanged_origin',
-                          'Dlis.C20.history_without_rejected_calls', 'Dlis.C20.rejected_add_origin_is_visible',
-                          'Dlis.C20.rejected_call_on_foreign_set_is_visible', 'Dlis.C20.dataset_names_unaffected',
+    'C20': dict(theorems=['Dlis.C20.rejected_call_is_identity', 'Dlis.C20.rejected_leaves_objects',
+                          'Dlis.C20.later_copy_numbers_unaffected', 'Dlis.C20.history_without_rejected_calls',
+                          'Dlis.C20.later_files_unaffected', 'Dlis.C20.dataset_names_unaffected',
                           'Dlis.C20.dataset_name_fresh', 'Dlis.run_invariants']),
 }
 RULE = ('histories of 3..14 add_* calls over 1..3 logical files: 11 object types + origins, repeated names, explicit '
@@ -509,9 +508,9 @@ def run_c20_oracle(chk, hists, tmp, model, bres):
             continue
         if datas[0][0] == 'ok':
             reqs += [f"dump 8192 {cps('1')} {cps('HIST')} {hexs(d[1])}" for d in datas]
-            meta.append(case)
+            meta.append((case, datas[0][1] == datas[1][1]))
     reps = model.ask(reqs)
-    for k, case in enumerate(meta):
+    for k, (case, same_bytes) in enumerate(meta):
         a, b = reps[2 * k], reps[2 * k + 1]
         if not (a.startswith('ok') and b.startswith('ok')):
             chk.fail('rejected:unreadable', case, 'strict reader rejects one of the files')
@@ -537,6 +536,11 @@ def run_c20_oracle(chk, hists, tmp, model, bres):
             except Exception:
                 pass
             chk.fail(key, case, f'content differs from the history without the rejected calls: {str(diff)[:800]}')
+        elif not same_bytes:
+            # the state is the same (theorem history_without_rejected_calls), so the files are the same bytes, record
+            # order included
+            chk.fail('rejected:bytes-differ', case, 'same objects, but the file differs from the one of the history without '
+                                                    'the rejected calls (record order)')
 
 
 def c20_data_stream(chk, tier, tmp):
